@@ -75,3 +75,22 @@ let () =
     | [h] -> hexbytes (string_unparse true (unhexbytes h)) | _ -> "?args");
   register "nameunparse" (fun args -> match args with
     | [h] -> hexbytes (name_normalize (unhexbytes h)) | _ -> "?args")
+
+(* Obj/SynSpec: the ISO object-syntax specification parser, canonical form printed *)
+let rec show_sobj = function
+  | SyNull -> "null"
+  | SyBool b -> if b then "b:1" else "b:0"
+  | SyInt z -> "i:" ^ show_z z
+  | SyReal (m, k) -> "r:" ^ show_z m ^ "/" ^ string_of_int (int_of_n k)
+  | SyStr s -> "s:" ^ hexbytes s
+  | SyName n -> "n:" ^ hexbytes n
+  | SyArr l -> "[ " ^ String.concat "" (List.map (fun o -> show_sobj o ^ " ") l) ^ "]"
+  | SyDict d -> "<< " ^ String.concat "" (List.map (fun (k, v) -> "n:" ^ hexbytes k ^ " " ^ show_sobj v ^ " ") d) ^ ">>"
+  | SyRef (i, g) -> "ref:" ^ show_z i ^ ":" ^ show_z g
+
+let () =
+  register "objspec" (fun args -> match args with
+    | [h] -> (match syn_spec (unhexbytes h) with
+              | None -> "invalid"
+              | Some o -> show_sobj (syn_canon o))
+    | _ -> "?args")
